@@ -721,15 +721,16 @@ static std::string run_kop(const std::vector<std::string>& a)
   if (op == "k.freeval") { int v = I(1); bloc_free_value(k_val[v]); k_val[v] = nullptr; return "{\"r\":\"ok\"}"; }
   if (op == "k.assign")
   {
-    int v = I(1);
+    /* target: a caller-owned value slot "<n>", or a library-owned pointer "l<n>" (a variable of the context updated in place) */
+    bloc_value * tv = (a[1][0] == 'l' ? k_lib[atoi(a[1].c_str() + 1)] : k_val[I(1)]);
     const std::string& sp = a[2];
     int r = -1;
-    if (sp == "null") { bloc_assign_null(k_val[v]); r = 1; }
-    else if (sp == "litnull") r = bloc_assign_literal(k_val[v], nullptr);
-    else if (sp == "tabnull") r = bloc_assign_tabchar(k_val[v], nullptr, 0);
-    else if (sp.compare(0, 4, "lit:") == 0) { std::string t = hexdec(sp.substr(4)); r = bloc_assign_literal(k_val[v], t.c_str()); }
-    else if (sp.compare(0, 4, "tab:") == 0) { std::string t = hexdec(sp.substr(4)); r = bloc_assign_tabchar(k_val[v], t.data(), (unsigned)t.size()); }
-    return "{\"r\":\"ok\",\"ret\":" + std::to_string(r) + ",\"val\":" + k_inspect(k_val[v]) + "}";
+    if (sp == "null") { bloc_assign_null(tv); r = 1; }
+    else if (sp == "litnull") r = bloc_assign_literal(tv, nullptr);
+    else if (sp == "tabnull") r = bloc_assign_tabchar(tv, nullptr, 0);
+    else if (sp.compare(0, 4, "lit:") == 0) { std::string t = hexdec(sp.substr(4)); r = bloc_assign_literal(tv, t.c_str()); }
+    else if (sp.compare(0, 4, "tab:") == 0) { std::string t = hexdec(sp.substr(4)); r = bloc_assign_tabchar(tv, t.data(), (unsigned)t.size()); }
+    return "{\"r\":\"ok\",\"ret\":" + std::to_string(r) + ",\"val\":" + k_inspect(tv) + "}";
   }
   if (op == "k.inspect") return "{\"r\":\"ok\",\"val\":" + k_inspect(a[1] == "v" ? k_val[I(2)] : k_lib[I(2)]) + "}";
   if (op == "k.pexpr")
